@@ -1,0 +1,151 @@
+//! Verification hook (cfg woodpile_verif): stand-ins for `AtomicU64` and `Mutex` as used by
+//! `atomic_base_time`.  A thread without a registered [`Runtime`] passes straight through to
+//! `std`; a thread with one routes every atomic access and every lock operation through it, so
+//! that a harness can choose the interleaving and the value each load reads.
+#![allow(missing_docs)]
+use std::cell::RefCell;
+use std::sync::atomic::Ordering;
+use std::sync::Arc;
+use std::sync::{LockResult, PoisonError, TryLockError, TryLockResult};
+
+/// What a harness implements.  Locations are identified by address.
+pub trait Runtime {
+    /// `init` is the value the location holds if the runtime has not seen it yet.
+    fn load(&self, addr: usize, init: u64, ord: Ordering) -> u64;
+    fn store(&self, addr: usize, init: u64, val: u64, ord: Ordering);
+    /// Returns once the lock has been granted.
+    fn lock(&self, addr: usize);
+    /// Returns whether the lock was granted.
+    fn try_lock(&self, addr: usize) -> bool;
+    fn unlock(&self, addr: usize);
+}
+
+thread_local! {
+    static RUNTIME: RefCell<Option<Arc<dyn Runtime>>> = const { RefCell::new(None) };
+}
+
+/// Registers (or clears) the runtime for the current thread.
+pub fn set_runtime(rt: Option<Arc<dyn Runtime>>) {
+    RUNTIME.with(|r| *r.borrow_mut() = rt);
+}
+
+fn runtime() -> Option<Arc<dyn Runtime>> {
+    RUNTIME.with(|r| r.borrow().clone())
+}
+
+#[derive(Debug)]
+pub struct AtomicU64 {
+    inner: std::sync::atomic::AtomicU64,
+}
+
+impl AtomicU64 {
+    pub const fn new(v: u64) -> Self {
+        Self {
+            inner: std::sync::atomic::AtomicU64::new(v),
+        }
+    }
+
+    pub fn verif_addr(&self) -> usize {
+        self as *const Self as usize
+    }
+
+    pub fn load(&self, ord: Ordering) -> u64 {
+        match runtime() {
+            None => self.inner.load(ord),
+            Some(rt) => rt.load(self.verif_addr(), self.inner.load(Ordering::SeqCst), ord),
+        }
+    }
+
+    pub fn store(&self, val: u64, ord: Ordering) {
+        match runtime() {
+            None => self.inner.store(val, ord),
+            Some(rt) => rt.store(self.verif_addr(), self.inner.load(Ordering::SeqCst), val, ord),
+        }
+    }
+}
+
+#[derive(Debug)]
+pub struct Mutex<T> {
+    inner: std::sync::Mutex<T>,
+}
+
+pub struct MutexGuard<'a, T> {
+    inner: std::sync::MutexGuard<'a, T>,
+    release: Option<(Arc<dyn Runtime>, usize)>,
+}
+
+impl<T> std::ops::Deref for MutexGuard<'_, T> {
+    type Target = T;
+    fn deref(&self) -> &T {
+        &self.inner
+    }
+}
+
+impl<T> std::ops::DerefMut for MutexGuard<'_, T> {
+    fn deref_mut(&mut self) -> &mut T {
+        &mut self.inner
+    }
+}
+
+impl<T> Drop for MutexGuard<'_, T> {
+    fn drop(&mut self) {
+        if let Some((rt, addr)) = self.release.take() {
+            rt.unlock(addr);
+        }
+    }
+}
+
+impl<T> Mutex<T> {
+    pub const fn new(v: T) -> Self {
+        Self {
+            inner: std::sync::Mutex::new(v),
+        }
+    }
+
+    pub fn verif_addr(&self) -> usize {
+        self as *const Self as usize
+    }
+
+    pub fn lock(&self) -> LockResult<MutexGuard<'_, T>> {
+        let release = runtime().map(|rt| {
+            rt.lock(self.verif_addr());
+            (rt, self.verif_addr())
+        });
+        match self.inner.lock() {
+            Ok(inner) => Ok(MutexGuard { inner, release }),
+            Err(e) => Err(PoisonError::new(MutexGuard {
+                inner: e.into_inner(),
+                release,
+            })),
+        }
+    }
+
+    pub fn try_lock(&self) -> TryLockResult<MutexGuard<'_, T>> {
+        let release = match runtime() {
+            None => None,
+            Some(rt) => {
+                if !rt.try_lock(self.verif_addr()) {
+                    return Err(TryLockError::WouldBlock);
+                }
+                Some((rt, self.verif_addr()))
+            }
+        };
+        match self.inner.try_lock() {
+            Ok(inner) => Ok(MutexGuard { inner, release }),
+            Err(TryLockError::Poisoned(e)) => Err(TryLockError::Poisoned(PoisonError::new(MutexGuard {
+                inner: e.into_inner(),
+                release,
+            }))),
+            Err(TryLockError::WouldBlock) => {
+                if let Some((rt, addr)) = release {
+                    rt.unlock(addr);
+                }
+                Err(TryLockError::WouldBlock)
+            }
+        }
+    }
+
+    pub fn clear_poison(&self) {
+        self.inner.clear_poison()
+    }
+}
